@@ -74,7 +74,7 @@ fn case_strat() -> impl Strategy<Value = Case> {
             0.5,
             (
                 0u64..50 * DAY,
-                prop_oneof![Just(-1i64), Just(0), Just(1), -1_000_000i64..10_000_000],
+                prop_oneof![2 => Just(-1i64), 2 => Just(0), 2 => Just(1), 3 => -1_000_000i64..10_000_000, 2 => Just(7i64)],
                 duration_strat(),
                 proptest::bool::weighted(0.8),
                 proptest::bool::weighted(0.15),
@@ -115,7 +115,14 @@ fn case_strat() -> impl Strategy<Value = Case> {
             };
             let upd = upd.map(|(at, goff, d2, by_owner, with_funds)| {
                 let at_t = now.saturating_add(at).min(MAX_TS);
-                let g2 = if goff < 0 { at_t.saturating_sub((-goff) as u64) } else { at_t.saturating_add(goff as u64) };
+                // one class re-submits the stored genesis (possibly long past by then)
+                let g2 = if goff == 7 || goff == -7 {
+                    genesis
+                } else if goff < 0 {
+                    at_t.saturating_sub((-goff) as u64)
+                } else {
+                    at_t.saturating_add(goff as u64)
+                };
                 Upd { at: at_t, genesis: g2, duration: d2, by_owner, with_funds }
             });
             Case { inst_time, genesis, duration, now, dt, id, upd }
@@ -365,6 +372,9 @@ impl Engine for C18 {
                 check_queries(&s, u.genesis, u.duration, now, c.dt, c.id, st)?;
             } else {
                 st.bump("update: rejected");
+                if u.genesis == c.genesis && u.genesis < u.at && u.by_owner && !u.with_funds && u.duration >= DAY {
+                    st.bump("update: stored genesis re-submitted after it passed -> refused");
+                }
                 st.mark();
                 if after != before {
                     return Err("rejected UpdateConfig changed Config{}".into());
@@ -398,5 +408,6 @@ pub fn check(tier: Tier, seed: u64) -> PropReport {
     rep.floor("current: before genesis -> refused", cases / 100);
     rep.floor("update: rejected", cases / 100);
     rep.floor("update: accepted", cases / 100);
+    rep.floor("update: stored genesis re-submitted after it passed -> refused", cases / 200);
     rep
 }
